@@ -16,7 +16,8 @@ def run(P, rep, tier):
         'branch changes no counter. R5 None-sentinels that may hold the index 0 are tested with "is (not) None", never by '
         'truthiness. R6 the reported number of processed lines equals the number of loop iterations started (minus the '
         'one garbage line that ends parsing).')
-    rep.undecided = 'hunk geometry (start lines, counts, context) as arithmetic over the line contents'
+    rep.undecided = ('hunk geometry for line sequences longer than the enumerated bound (R7 compares every sequence of line classes up to the bound with a '
+                     'reference semantics; beyond it the argument is the uniformity of the per-line update, not machine-checked)')
     rep.trusted_base += ['sink table rows for int(), Match.group, list/dict indexing; enumerate/len semantics']
     f = P.func('pydiffx.utils.unified_diffs', 'get_unified_diff_hunks')
     mhe = P.cls('pydiffx.errors', 'MalformedHunkError')
